@@ -191,8 +191,8 @@ func remoteOf(fam, g, m int) (ip string, port int, group string) {
 	}
 	b := make([]byte, 16)
 	b[0], b[1], b[2], b[3] = 0x26, 0x00, 0x1f, 0x00
-	b[5] = 0xa0 + byte(g%2)                // two /48s
-	b[6] = byte(g / 2)                     // bits 48..55: neighbours differ in bit 55 only
+	b[5] = 0xa0 + byte(g%2)                 // two /48s
+	b[6] = byte(g / 2)                      // bits 48..55: neighbours differ in bit 55 only
 	b[7] = [...]byte{0x00, 0x80, 0x01}[m%3] // bits 56..63: same /56, other /57 resp. other /64
 	b[15] = byte(1 + m)
 	return net.IP(b).String(), port, "6:" + hex.EncodeToString(b[:7])
